@@ -685,6 +685,7 @@ func freeVarBinding(v ssa.Value) ssa.Value {
 // Any other omission ("already visible through a parent") keeps a request for /proc or /dev from ever being judged.
 func c14Adapter(r *core.Run) {
 	p := r.P
+	r.Explain += " (ADAPTER) the CLI adapter hands every requested path to the manager (whose reserved-path check is decided above): a request is left out only if empty, unresolvable or an exact duplicate."
 	sp := sandboxPath(p)
 	n := 0
 	for _, top := range p.FuncsIn("internal/cli") {
